@@ -215,6 +215,19 @@ def run(ctx):
             nreal += 1
             msg = None
             if rc == -999:
+                # a word that stands for a very large (but legal: <= 16384 hosts a range) number of hosts: with a transport or
+                # user prefix pdsh registers every host one by one, each time searching what it has registered so far - minutes
+                # for 10^5 hosts.  That is the cost of the registration, not of parsing; such words are not judged here.
+                body = wd
+                for pf in sorted(prefixes, key=len, reverse=True):
+                    if pf and wd.startswith(pf):
+                        body = wd[len(pf):]
+                        break
+                to = eng.run_impl(["targets " + hexs(body)])[0]
+                nh = to.count(",") + 1 if to.startswith("OK") else 0
+                if nh > 20000:
+                    dist["large_expansion_not_timed"] = dist.get("large_expansion_not_timed", 0) + 1
+                    continue
                 msg = "pdsh does not terminate on the word"
             elif rc < 0 or rc >= 128:
                 msg = "pdsh crashed (status %d) instead of failing cleanly" % rc
